@@ -539,6 +539,20 @@ void rational_interval_mul(lp_rational_interval_t* P, const lp_rational_interval
       result.b_open = tmp_open;
     }
 
+    // If an endpoint is 0, it comes from a zero endpoint of I1 or I2. If that
+    // endpoint is closed, 0 is attained and the resulting endpoint must be closed
+    // too (same final check as in lp_interval_mul).
+    if (rational_sgn(&result.a) == 0 || rational_sgn(&result.b) == 0) {
+      int c1_a = (rational_sgn(&I1->a) == 0) && !I1->a_open;
+      int c1_b = (rational_sgn(&I1->b) == 0) && !I1->b_open;
+      int c2_a = (rational_sgn(&I2->a) == 0) && !I2->a_open;
+      int c2_b = (rational_sgn(&I2->b) == 0) && !I2->b_open;
+      if (c1_a || c1_b || c2_a || c2_b) {
+        if (rational_sgn(&result.a) == 0) result.a_open = 0;
+        if (rational_sgn(&result.b) == 0) result.b_open = 0;
+      }
+    }
+
     lp_rational_interval_swap(&result, P);
     lp_rational_interval_destruct(&result);
     rational_destruct(&tmp);
@@ -647,6 +661,20 @@ void dyadic_interval_mul(lp_dyadic_interval_t* P, const lp_dyadic_interval_t* I1
     } else if (dyadic_interval_endpoint_lt(&result.b, !result.b_open, &tmp, !tmp_open)) {
       dyadic_rational_swap(&tmp, &result.b);
       result.b_open = tmp_open;
+    }
+
+    // If an endpoint is 0, it comes from a zero endpoint of I1 or I2. If that
+    // endpoint is closed, 0 is attained and the resulting endpoint must be closed
+    // too (same final check as in lp_interval_mul).
+    if (dyadic_rational_sgn(&result.a) == 0 || dyadic_rational_sgn(&result.b) == 0) {
+      int c1_a = (dyadic_rational_sgn(&I1->a) == 0) && !I1->a_open;
+      int c1_b = (dyadic_rational_sgn(&I1->b) == 0) && !I1->b_open;
+      int c2_a = (dyadic_rational_sgn(&I2->a) == 0) && !I2->a_open;
+      int c2_b = (dyadic_rational_sgn(&I2->b) == 0) && !I2->b_open;
+      if (c1_a || c1_b || c2_a || c2_b) {
+        if (dyadic_rational_sgn(&result.a) == 0) result.a_open = 0;
+        if (dyadic_rational_sgn(&result.b) == 0) result.b_open = 0;
+      }
     }
 
     lp_dyadic_interval_swap(&result, P);
